@@ -594,7 +594,7 @@ func runC12(c *Ctx) {
 // ---------- C13: reset ----------
 
 func runC13(c *Ctx) {
-	c.Rule = "multi-round histories on one authorizer (1-5 rounds; per round 0-4 facts, 0-2 rules, 0-2 checks, 0-3 policies; each round ends in Authorize and/or a Query, then Reset), biased to the leak shape (round n supplies a fact a token check needs, round n+1 does not). Witness search: every round replayed on a fresh authorizer with only that round's content must give the same outputs. Non-trivial = at least two rounds and at least one round whose own content changes its verdict; distinct = distinct canonical histories."
+	c.Rule = "multi-round histories on one authorizer (1-5 rounds; per round 0-4 facts, 0-2 rules, 0-2 checks, 0-3 policies; each round optionally starts with LoadPolicies of a snapshot made on another authorizer, ends in Authorize and/or a Query, then Reset), biased to the leak shape (round n supplies a fact a token check needs, round n+1 does not). Witness search: every round replayed on a fresh authorizer with only that round's content must give the same outputs. Non-trivial = at least two rounds and at least one round whose own content changes its verdict; distinct = distinct canonical histories."
 	r := NewRng(c.Seed)
 	n := 1500
 	if c.Thorough {
@@ -617,6 +617,13 @@ func runC13(c *Ctx) {
 				for _, f := range need {
 					ops = append([]AuthOp{{K: "addfact", Fact: f}}, ops...)
 				}
+			}
+			if r.Chance(1, 3) {
+				// the round starts by loading a snapshot made elsewhere (LoadPolicies on the
+				// reused authorizer); only at the start of a round: LoadPolicies re-bases the
+				// authorizer's symbol table, which is specified for a clean authorizer only
+				ops = append([]AuthOp{{K: "load", Sub: g.authContent()}}, ops...)
+				c.Count("round-with-load")
 			}
 			if r.Chance(4, 5) {
 				ops = append(ops, AuthOp{K: "authorize"})
